@@ -38,7 +38,10 @@ def build(tier, seed):
     set_tier(tier)
     tasks = [a_task(PROP, display.should_display), a_task(PROP, display.filter_display2),
              a_task(PROP, _with_search(display.prune_codeunit)), a_task(PROP, _with_search(display.prune_type)),
-             a_task(PROP, _with_search(display.prune_blockdata)), bounded_task()]
+             a_task(PROP, _with_search(display.prune_blockdata)), a_task(PROP, display.str_method), a_task(PROP, display.basenode_url_block),
+             a_task(PROP, display.set_display),
+             Task(f"{PROP}.S.EntitySettings", PROP, "ford.settings.EntitySettings.from_project_settings", lambda: display.entity_settings_default_display(PROP)),
+             bounded_task()]
     meta = {
         "trusted_base": TRUSTED_BASE,
         "assumptions": PYVC_ASSUMPTIONS + [
@@ -52,9 +55,12 @@ def build(tier, seed):
         ],
         "functions_under_contract": fn_meta([("ford.sourceform", "FortranBase._should_display", None), ("ford.sourceform", "FortranBase.filter_display", None),
                                              ("ford.sourceform", "FortranCodeUnit.prune", None), ("ford.sourceform", "FortranType.prune", None),
-                                             ("ford.sourceform", "FortranBlockData.prune", None)]),
-        "unverified_surroundings": ["what the Jinja templates print", "the search index", "Project.correlate gathering block", "_set_display inheritance",
-                                    "graph node URLs", "FordLinkProcessor"],
+                                             ("ford.sourceform", "FortranBlockData.prune", None), ("ford.sourceform", "FortranBase.__str__", None),
+                                             ("ford.sourceform", "FortranBase._set_display", "requires: not a source file (the `none`-stripping while loop is not covered)"),
+                                             ("ford.graphs", "BaseNode.__init__", "block contract: the final `if self.url and getattr(obj, 'visible', True)` statement"),
+                                             ("ford.settings", "EntitySettings.from_project_settings", "AST-level postcondition (keyword constructor call)")]),
+        "unverified_surroundings": ["what the Jinja templates print", "the search index", "Project.correlate gathering block", "read_metadata (composition of from_project_settings, "
+                                    "meta.update and _set_display)", "FordLinkProcessor"],
         "not_addressed": ["rendered HTML and search_database.json: no contract can express them (templates are not Python functions)"],
         "explanation": "Selection half of C05: _should_display equals the oracle, filter_display is the order-preserving filter by it, and each prune() "
                        "leaves in every child list of the unit exactly the selected members (all child lists read from FortranBase.children that carry an accessibility).",
